@@ -181,6 +181,7 @@ fn check_excess_parentheses(internal_expression: &Expression, context: Expressio
     }
 }
 
+
 /// Special case: if we have `- -foo`, or `-(-foo)` where we have already removed the parentheses, then
 /// it will lead to `--foo`, which is a comment. We must explicitly add/keep the parentheses `-(-foo)`.
 fn parenthesise_double_minus(unop: &UnOp, expression: Expression) -> Expression {
@@ -203,6 +204,17 @@ fn parenthesise_double_minus(unop: &UnOp, expression: Expression) -> Expression 
         }
     }
     expression
+}
+
+/// The context an operand on the left of `binop` is formatted in on the hanging path.
+/// Unlike the single line path, `(not x) and y` is not kept parenthesised here (this only affects style),
+/// but `(-x) ^ y` must be, as removing the parentheses changes the meaning of the expression.
+fn hanging_lhs_context(binop: &BinOp) -> ExpressionContext {
+    if let BinOp::Caret(_) = binop {
+        ExpressionContext::BinaryLHSExponent
+    } else {
+        ExpressionContext::UnaryOrBinary
+    }
 }
 
 /// Formats an Expression node
@@ -1177,7 +1189,7 @@ fn hang_binop_expression(
                                 },
                                 lhs_shape,
                                 lhs_range,
-                                expression_context,
+                                hanging_lhs_context(&binop),
                             ),
                             if contains_comments(&*rhs) {
                                 hang_binop_expression(
@@ -1186,7 +1198,7 @@ fn hang_binop_expression(
                                     binop,
                                     shape,
                                     lhs_range,
-                                    expression_context,
+                                    ExpressionContext::UnaryOrBinary,
                                 )
                             } else {
                                 format_expression_internal(
@@ -1205,7 +1217,7 @@ fn hang_binop_expression(
                                     binop.clone(),
                                     shape,
                                     lhs_range,
-                                    expression_context,
+                                    hanging_lhs_context(&binop),
                                 )
                             } else {
                                 let context = if let BinOp::Caret(_) = binop {
@@ -1221,7 +1233,7 @@ fn hang_binop_expression(
                                 if same_op_level { top_binop } else { binop },
                                 rhs_shape,
                                 lhs_range,
-                                expression_context,
+                                ExpressionContext::UnaryOrBinary,
                             ),
                         ),
                     };
@@ -1240,7 +1252,7 @@ fn hang_binop_expression(
                             binop.to_owned(),
                             shape,
                             lhs_range,
-                            expression_context,
+                            hanging_lhs_context(&binop),
                         )
                     } else {
                         let context = if let BinOp::Caret(_) = binop {
@@ -1258,7 +1270,7 @@ fn hang_binop_expression(
                             binop,
                             shape,
                             lhs_range,
-                            expression_context,
+                            ExpressionContext::UnaryOrBinary,
                         )
                     } else {
                         format_expression_internal(
@@ -1428,7 +1440,7 @@ fn format_hanging_expression_(
                 binop.to_owned(),
                 shape,
                 lhs_range,
-                ExpressionContext::UnaryOrBinary,
+                hanging_lhs_context(binop),
             );
 
             let current_shape = shape.take_last_line(&lhs) + 1; // 1 = space before binop
@@ -1442,7 +1454,7 @@ fn format_hanging_expression_(
                 binop.to_owned(),
                 singleline_shape,
                 None,
-                ExpressionContext::Standard,
+                ExpressionContext::UnaryOrBinary,
             );
 
             // Examine the last line to see if we need to hang this binop, or if the precedence levels match
@@ -1461,7 +1473,7 @@ fn format_hanging_expression_(
                     binop.to_owned(),
                     hanging_shape,
                     None,
-                    ExpressionContext::Standard,
+                    ExpressionContext::UnaryOrBinary,
                 )
                 .update_leading_trivia(FormatTriviaType::Replace(Vec::new()));
             }
